@@ -91,6 +91,10 @@ type State struct {
 	// cellVal records, per local cell, the SSA value last stored into it on this path (identity, where cells
 	// holds the abstract content): a named result assigned from a call and read back is that call's result
 	cellVal map[ssa.Value]ssa.Value
+	// elems / elemVal: the same for the elements of local arrays written at indices known on the path (a literal
+	// table that is ranged over): content and identity per (array, index)
+	elems   map[ssa.Value]map[int64]AVal
+	elemVal map[ssa.Value]map[int64]ssa.Value
 }
 
 func (s *State) clone() *State {
@@ -113,6 +117,22 @@ func (s *State) clone() *State {
 		n.cellVal = map[ssa.Value]ssa.Value{}
 		for k, v := range s.cellVal {
 			n.cellVal[k] = v
+		}
+	}
+	if len(s.elems) > 0 {
+		n.elems = map[ssa.Value]map[int64]AVal{}
+		n.elemVal = map[ssa.Value]map[int64]ssa.Value{}
+		for a, m := range s.elems {
+			n.elems[a] = map[int64]AVal{}
+			for k, v := range m {
+				n.elems[a][k] = v
+			}
+		}
+		for a, m := range s.elemVal {
+			n.elemVal[a] = map[int64]ssa.Value{}
+			for k, v := range m {
+				n.elemVal[a][k] = v
+			}
 		}
 	}
 	for k, v := range s.cells {
@@ -228,26 +248,7 @@ func (s *State) Eval(v ssa.Value) AVal {
 				return AVal{K: ANil}
 			}
 			// the zero value of a struct type: every field is its zero value
-			if stt, ok := x.Type().Underlying().(*types.Struct); ok {
-				out := AVal{K: AStruct, S: map[int]AVal{}}
-				for i := 0; i < stt.NumFields(); i++ {
-					switch ft := stt.Field(i).Type().Underlying().(type) {
-					case *types.Basic:
-						switch {
-						case ft.Info()&types.IsBoolean != 0:
-							out.S[i] = ABool(false)
-						case ft.Info()&types.IsInteger != 0:
-							out.S[i] = AInt(0)
-						case ft.Info()&types.IsString != 0:
-							out.S[i] = AStr("")
-						}
-					case *types.Pointer, *types.Interface, *types.Map, *types.Slice, *types.Chan, *types.Signature:
-						out.S[i] = AVal{K: ANil}
-					}
-				}
-				return out
-			}
-			return AVal{}
+			return zeroAVal(x.Type())
 		}
 		return AVal{K: AConst, C: x.Value}
 	case *ssa.Function, *ssa.MakeClosure, *ssa.Alloc, *ssa.MakeMap, *ssa.MakeSlice, *ssa.MakeChan, *ssa.MakeInterface:
@@ -334,9 +335,40 @@ func (s *State) Eval(v ssa.Value) AVal {
 					return c
 				}
 			}
+			if ia, ok := cell.(*ssa.IndexAddr); ok {
+				if arr, k, ok := s.localElem(ia); ok {
+					if c, ok := s.elems[arr][k]; ok {
+						return c
+					}
+				}
+			}
 		}
 	case *ssa.BinOp:
 		return evalBin(x.Op, s.Eval(x.X), s.Eval(x.Y))
+	case *ssa.Lookup:
+		// a lookup in a constant table of the module (a package-level map literal nothing writes) with a key
+		// known on this path
+		if !x.CommaOk {
+			if v, _, ok := s.constLookup(x); ok {
+				return v
+			}
+		}
+	case *ssa.Extract:
+		if lk, ok := x.Tuple.(*ssa.Lookup); ok && lk.CommaOk {
+			if v, found, ok := s.constLookup(lk); ok {
+				if x.Index == 0 {
+					return v
+				}
+				return ABool(found)
+			}
+		}
+	case *ssa.Index:
+		// an element of (a copy of) a local array whose elements were written at known indices
+		if arr, k, ok := s.localIndex(x); ok {
+			if c, ok := s.elems[arr][k]; ok {
+				return c
+			}
+		}
 	case *ssa.Field:
 		if sv := s.Eval(x.X); sv.K == AStruct {
 			if fv, ok := sv.S[x.Field]; ok {
@@ -575,6 +607,19 @@ func (e *Explorer) instrs(fn *ssa.Function, b *ssa.BasicBlock, from int, st *Sta
 				}
 			case *ssa.FieldAddr:
 				st.fields[AccessPath(a).String()] = val
+			case *ssa.IndexAddr:
+				if arr, k, ok := st.localElem(a); ok {
+					if st.elems == nil {
+						st.elems = map[ssa.Value]map[int64]AVal{}
+						st.elemVal = map[ssa.Value]map[int64]ssa.Value{}
+					}
+					if st.elems[arr] == nil {
+						st.elems[arr] = map[int64]AVal{}
+						st.elemVal[arr] = map[int64]ssa.Value{}
+					}
+					st.elems[arr][k] = val
+					st.elemVal[arr][k] = x.Val
+				}
 			}
 			e.effect(in, st)
 		case *ssa.Defer:
@@ -955,9 +1000,60 @@ func (e *Explorer) NewState(seed map[ssa.Value]AVal) *State {
 // function: parameters and free variables of inlined callees are replaced by
 // what they were bound to at the call.
 // cellLoad: v is a load of a local cell with a value recorded on this path.
+// localElem: ia addresses element k (known on this path) of an array that is a local of the function.
+func (s *State) localElem(ia *ssa.IndexAddr) (ssa.Value, int64, bool) {
+	al, ok := ia.X.(*ssa.Alloc)
+	if !ok {
+		return nil, 0, false
+	}
+	if _, isArr := Deref(al.Type()).Underlying().(*types.Array); !isArr {
+		return nil, 0, false
+	}
+	k, ok := ConstIntOf(s.Eval(ia.Index))
+	if !ok {
+		return nil, 0, false
+	}
+	return al, k, true
+}
+
+// localIndex: x reads element k (known on this path) of a value copy of a local array.
+func (s *State) localIndex(x *ssa.Index) (ssa.Value, int64, bool) {
+	u, ok := x.X.(*ssa.UnOp)
+	if !ok || u.Op != token.MUL {
+		return nil, 0, false
+	}
+	al, ok := u.X.(*ssa.Alloc)
+	if !ok {
+		return nil, 0, false
+	}
+	k, ok := ConstIntOf(s.Eval(x.Index))
+	if !ok {
+		return nil, 0, false
+	}
+	return al, k, true
+}
+
 func (s *State) cellLoad(v ssa.Value) (ssa.Value, bool) {
+	if ix, isIx := v.(*ssa.Index); isIx && len(s.elemVal) > 0 {
+		if arr, k, ok := s.localIndex(ix); ok {
+			if ev, ok := s.elemVal[arr][k]; ok && ev != nil {
+				return ev, true
+			}
+		}
+		return nil, false
+	}
 	u, ok := v.(*ssa.UnOp)
-	if !ok || u.Op != token.MUL || len(s.cellVal) == 0 {
+	if !ok || u.Op != token.MUL {
+		return nil, false
+	}
+	if ia, isIA := u.X.(*ssa.IndexAddr); isIA && len(s.elemVal) > 0 {
+		if arr, k, ok := s.localElem(ia); ok {
+			if ev, ok := s.elemVal[arr][k]; ok && ev != nil {
+				return ev, true
+			}
+		}
+	}
+	if len(s.cellVal) == 0 {
 		return nil, false
 	}
 	cell := u.X
@@ -972,6 +1068,20 @@ func (s *State) cellLoad(v ssa.Value) (ssa.Value, bool) {
 
 func (s *State) Root(v ssa.Value) ssa.Value {
 	for i := 0; i < 16; i++ {
+		if u, ok := v.(*ssa.UnOp); ok && u.Op == token.MUL {
+			if _, isIA := u.X.(*ssa.IndexAddr); isIA {
+				if cv, ok := s.cellLoad(v); ok {
+					v = cv
+					continue
+				}
+			}
+		}
+		if _, isIx := v.(*ssa.Index); isIx {
+			if cv, ok := s.cellLoad(v); ok {
+				v = cv
+				continue
+			}
+		}
 		all := ResolveAll(v)
 		if len(all) != 1 {
 			// a cell written in several places: what this path stored last
@@ -998,6 +1108,22 @@ func (s *State) Root(v ssa.Value) ssa.Value {
 func (s *State) RootChain(v ssa.Value) []ssa.Value {
 	out := []ssa.Value{v}
 	for i := 0; i < 16; i++ {
+		if u, ok := v.(*ssa.UnOp); ok && u.Op == token.MUL {
+			if _, isIA := u.X.(*ssa.IndexAddr); isIA {
+				if cv, ok := s.cellLoad(v); ok {
+					out = append(out, cv)
+					v = cv
+					continue
+				}
+			}
+		}
+		if _, isIx := v.(*ssa.Index); isIx {
+			if cv, ok := s.cellLoad(v); ok {
+				out = append(out, cv)
+				v = cv
+				continue
+			}
+		}
 		all := ResolveAll(v)
 		if len(all) != 1 {
 			if cv, ok := s.cellLoad(v); ok {
@@ -1196,4 +1322,172 @@ func sentinelError(g *ssa.Global) bool {
 		}
 	}
 	return sentinelCache[g]
+}
+
+// zeroAVal is the abstract zero value of type t (unknown where the explorer has no representation).
+func zeroAVal(t types.Type) AVal {
+	switch ft := t.Underlying().(type) {
+	case *types.Basic:
+		switch {
+		case ft.Info()&types.IsBoolean != 0:
+			return ABool(false)
+		case ft.Info()&types.IsInteger != 0:
+			return AInt(0)
+		case ft.Info()&types.IsString != 0:
+			return AStr("")
+		}
+	case *types.Pointer, *types.Interface, *types.Map, *types.Slice, *types.Chan, *types.Signature:
+		return AVal{K: ANil}
+	case *types.Struct:
+		out := AVal{K: AStruct, S: map[int]AVal{}}
+		for i := 0; i < ft.NumFields(); i++ {
+			if z := zeroAVal(ft.Field(i).Type()); z.K != AUnknown {
+				out.S[i] = z
+			}
+		}
+		return out
+	}
+	return AVal{}
+}
+
+type constTable struct {
+	entries map[string]AVal // key (exact constant string) → value
+	ok      bool
+}
+
+var constTables = map[*ssa.Global]*constTable{}
+
+// constTableOf reads a package-level map of the module that is initialised by a literal with constant keys and
+// constant (or constant-struct) values in the package initialiser and that nothing else in the module writes.
+func constTableOf(g *ssa.Global) *constTable {
+	if t, ok := constTables[g]; ok {
+		return t
+	}
+	t := &constTable{entries: map[string]AVal{}}
+	constTables[g] = t
+	if CurrentProg == nil || g.Pkg == nil {
+		return t
+	}
+	initFn := g.Pkg.Func("init")
+	if initFn == nil {
+		return t
+	}
+	good := true
+	n := 0
+	EachInstr(initFn, func(in ssa.Instruction) {
+		mu, ok := in.(*ssa.MapUpdate)
+		if !ok {
+			return
+		}
+		mm, ok := mu.Map.(*ssa.MakeMap)
+		if !ok || mm.Referrers() == nil {
+			return
+		}
+		stored := false
+		for _, r := range *mm.Referrers() {
+			if st, ok := r.(*ssa.Store); ok && st.Addr == ssa.Value(g) {
+				stored = true
+			}
+		}
+		if !stored {
+			return
+		}
+		n++
+		kc, ok := mu.Key.(*ssa.Const)
+		if !ok || kc.Value == nil {
+			good = false
+			return
+		}
+		var val AVal
+		switch v := mu.Value.(type) {
+		case *ssa.Const:
+			if v.Value == nil {
+				val = zeroAVal(v.Type())
+			} else {
+				val = AVal{K: AConst, C: v.Value}
+			}
+		case *ssa.UnOp:
+			// a struct literal: a local whose fields were stored one by one
+			al, isAl := v.X.(*ssa.Alloc)
+			stt, isSt := v.Type().Underlying().(*types.Struct)
+			if v.Op != token.MUL || !isAl || !isSt || al.Referrers() == nil {
+				good = false
+				return
+			}
+			val = zeroAVal(v.Type())
+			for _, r := range *al.Referrers() {
+				fa, ok := r.(*ssa.FieldAddr)
+				if !ok || fa.Referrers() == nil {
+					continue
+				}
+				for _, rr := range *fa.Referrers() {
+					st, ok := rr.(*ssa.Store)
+					if !ok || st.Addr != ssa.Value(fa) {
+						continue
+					}
+					c, isC := st.Val.(*ssa.Const)
+					if !isC || c.Value == nil {
+						delete(val.S, fa.Field)
+						continue
+					}
+					val.S[fa.Field] = AVal{K: AConst, C: c.Value}
+				}
+			}
+			_ = stt
+		default:
+			good = false
+			return
+		}
+		t.entries[kc.Value.ExactString()] = val
+	})
+	// nothing else writes it
+	for _, fn := range CurrentProg.Funcs {
+		EachInstr(fn, func(in ssa.Instruction) {
+			switch y := in.(type) {
+			case *ssa.Store:
+				if y.Addr == ssa.Value(g) {
+					good = false
+				}
+			case *ssa.MapUpdate:
+				for _, src := range Sources(y.Map) {
+					if u, ok := src.(*ssa.UnOp); ok && u.X == ssa.Value(g) {
+						good = false
+					}
+				}
+			}
+		})
+	}
+	t.ok = good && n > 0
+	return t
+}
+
+// constLookup evaluates a lookup in a constant table with a key known on the path.
+func (s *State) constLookup(lk *ssa.Lookup) (val AVal, found bool, ok bool) {
+	var g *ssa.Global
+	for _, src := range Sources(lk.X) {
+		if u, isU := src.(*ssa.UnOp); isU && u.Op == token.MUL {
+			if gg, isG := u.X.(*ssa.Global); isG {
+				g = gg
+			}
+		}
+	}
+	if g == nil {
+		return AVal{}, false, false
+	}
+	t := constTableOf(g)
+	if !t.ok {
+		return AVal{}, false, false
+	}
+	k := s.Eval(lk.Index)
+	if k.K != AConst || k.C == nil {
+		return AVal{}, false, false
+	}
+	mt, isMap := lk.X.Type().Underlying().(*types.Map)
+	if !isMap {
+		return AVal{}, false, false
+	}
+	if v, hit := t.entries[k.C.ExactString()]; hit {
+		return v, true, true
+	}
+	return zeroAVal(mt.Elem()), false, true
 }
